@@ -68,6 +68,13 @@ Definition has_key (k : str) (o : list (str * A)) : bool :=
   match lookup k o with Some _ => true | None => false end.
 End Assoc.
 
+Fixpoint prefixb (p s : str) : bool :=
+  match p, s with
+  | [], _ => true
+  | a :: p', b :: s' => N.eqb a b && prefixb p' s'
+  | _ :: _, [] => false
+  end.
+
 Fixpoint mem_str (k : str) (l : list str) : bool :=
   match l with [] => false | x :: t => str_eqb k x || mem_str k t end.
 
